@@ -773,8 +773,8 @@ fn gen_msg(rng: &mut Rng) -> Vec<u8> {
 fn run(out: &mut dyn Write) {
     let seed = env_u64("VERIF_SEED", 0);
     let thorough = std::env::var("VERIF_TIER").map(|t| t == "thorough").unwrap_or(false);
-    let ntx = env_u64("VERIF_CRYPTO_NTX", if thorough { 1500 } else { 70 }) as usize;
-    let nsig = env_u64("VERIF_CRYPTO_NSIG", if thorough { 400 } else { 30 }) as usize;
+    let ntx = env_u64("VERIF_CRYPTO_NTX", if thorough { 4000 } else { 300 }) as usize;
+    let nsig = env_u64("VERIF_CRYPTO_NSIG", if thorough { 1200 } else { 100 }) as usize;
     let mut rng = Rng::new(seed ^ 0xC17);
 
     // serialised sizes around the AEAD block boundaries and around the 2048-byte slot boundaries
